@@ -39,7 +39,7 @@ func init() {
 		Run:            run,
 		MinEvaluations: map[string]int{"quick": 150000, "thorough": 1500000},
 		MinNontrivial:  map[string]int{"quick": 5000, "thorough": 50000},
-		RequiredObs: []string{
+		RequiredObs: []string{"breathing:drains_completed", "breathing:set_at_a_quarter_of_its_capacity_or_less(cap>=64)",
 			"op:Union", "op:Intersection", "op:IntersectionSize", "op:SetMinus", "op:XOR", "op:ContainsSorted", "op:ContainsSingle", "op:Complement",
 			"op:NewSortedInts", "op:Add", "op:Remove", "op:Range", "op:Union_method", "Union_method:in_place", "Union_method:reallocated",
 			"Range:required_panics_seen", "Range:descending", "Add:args_repeated_and_present", "sort:heapsort_entry", "sort:Sort", "operands_compared_bitwise", "history:bystanders_checked",
@@ -1130,6 +1130,18 @@ func run(c *engine.Ctx) {
 		})
 	}
 
+	// 6b. "breathing" histories: one value grown to 64..700 elements and drained again by Remove alone (from the
+	// front, the back, the middle, at random), several cycles, compared with the model after every call: whatever
+	// is rebuilt or released when a set shrinks far below its capacity happens here and nowhere in the short histories
+	nb := c.Pick(48, 400)
+	for u := 0; u < nb; u++ {
+		u := u
+		c.Unit(fmt.Sprintf("seeded/breathing/%d", u), func() {
+			m := newMon(c)
+			m.breathing(u)
+		})
+	}
+
 	// 7. every representation of a value in every argument position (reps.go)
 	repUnits(c)
 
@@ -1138,6 +1150,112 @@ func run(c *engine.Ctx) {
 
 	// 9. sorting
 	sortUnits(c)
+}
+
+// breathing: see run().
+func (m *mon) breathing(idx int) {
+	c := m.c
+	m.class = ""
+	if m.muted("history") {
+		return
+	}
+	rg := c.Rand("breathing", idx)
+	var s sortints.SortedInts
+	model := refset.Of()
+	key := fmt.Sprintf("breathing#%d", idx)
+	var log []string
+	fail := func(kind, obs, exp string) {
+		tail := log
+		if len(tail) > 12 {
+			tail = tail[len(tail)-12:]
+		}
+		m.viol("history", kind, fmt.Sprintf("%s|step=%d", key, len(log)), map[string]interface{}{"calls_so_far": len(log), "last_calls": tail}, obs, exp)
+	}
+	check := func(pi *engine.PanicInfo) bool {
+		c.Eval(1)
+		if pi != nil {
+			fail("panic|"+engine.SiteNoLine(pi.Site), pi.String(), show(model.Sorted()))
+			return false
+		}
+		if !refset.StrictlyIncreasing(s) || !refset.Equal(s, model) {
+			fail("wrong", show(s), show(model.Sorted()))
+			return false
+		}
+		return true
+	}
+	cycles := 2 + rg.Intn(3)
+	for cy := 0; cy < cycles && !c.Stopped(); cy++ {
+		target := []int{64, 65, 100, 128, 129, 200, 256, 300, 513, 700}[rg.Intn(10)]
+		// grow: Range, batches of Add, Union method
+		switch rg.Intn(3) {
+		case 0:
+			step := 1 + rg.Intn(3)
+			var r sortints.SortedInts
+			pi := c.Call(key+"|Range", func() { r = sortints.Range(0, target*step, step) })
+			if pi != nil {
+				fail("panic|"+engine.SiteNoLine(pi.Site), pi.String(), "a range")
+				return
+			}
+			log = append(log, fmt.Sprintf("s.Union(Range(0,%d,%d))", target*step, step))
+			pi = c.Call(key+"|Union", func() { s.Union(r) })
+			for x := 0; x < target*step; x += step {
+				model[x] = true
+			}
+			if !check(pi) {
+				return
+			}
+		default:
+			for len(model) < target {
+				var args []int
+				for j := 1 + rg.Intn(12); j > 0; j-- {
+					args = append(args, rg.Intn(3*target))
+				}
+				log = append(log, fmt.Sprintf("Add(%v)", args))
+				pi := c.Call(key+"|Add", func() { s.Add(args...) })
+				for _, x := range args {
+					model[x] = true
+				}
+				if !check(pi) {
+					return
+				}
+			}
+		}
+		c.ObsMax("breathing:largest_set", len(model))
+		// drain by Remove alone
+		style := rg.Intn(5)
+		floor := []int{0, 0, 1, 3, 10}[rg.Intn(5)]
+		for len(model) > floor {
+			cur := model.Sorted()
+			var x int
+			switch style {
+			case 0:
+				x = cur[0]
+			case 1:
+				x = cur[len(cur)-1]
+			case 2:
+				x = cur[len(cur)/2]
+			case 3:
+				x = cur[rg.Intn(len(cur))]
+			default:
+				x = cur[rg.Intn(2)*(len(cur)-1)] // alternate ends at random
+			}
+			if rg.Bool(0.05) {
+				x = -1 - rg.Intn(5) // absent
+			}
+			log = append(log, fmt.Sprintf("Remove(%d)[len=%d cap=%d]", x, len(s), cap(s)))
+			pi := c.Call(key+"|Remove", func() { s.Remove(x) })
+			delete(model, x)
+			c.Obs("breathing:removes", 1)
+			if !check(pi) {
+				return
+			}
+			if 4*len(s) <= cap(s) && cap(s) >= 64 {
+				c.Obs("breathing:set_at_a_quarter_of_its_capacity_or_less(cap>=64)", 1)
+			}
+		}
+		c.Obs("breathing:drains_completed", 1)
+	}
+	c.NT("breathing", idx, c.Seed())
 }
 
 type bystander struct {
